@@ -5,8 +5,12 @@
    S lines  (stream `spec`): the C09 specification evaluated, in exact rational arithmetic, on the
             OUTPUT OF THE IMPLEMENTATION (embedded in the case term): linear, identity, round trip
             within 0.1 %, physical factor within 0.1 %, builders = definition of the derived quantity.
-            The SI tables below are specification (trusted base); Props/C09.v restates them and
-            proves they are these. *)
+            The SI tables below are specification (trusted base); Props/C09.v (module C09Spec) restates them
+            and proves they are these.
+   T line   [line_table_failures]: the entries of the regenerated table that fail a finite fact of C09
+            (identity / round trip / physical / positive / constructor factor) -- the run replays them on the
+            implementation when a changed factor breaks a proof.
+   A lines  (stream `approx`): tolerance-band re-judgement of `convert` cases whose bits differ (DESIGN 1.2). *)
 From Coq Require Import ZArith QArith Qabs String List Bool Floats.
 From RC Require Import Base.Show Base.Num Base.Res Model.Units.
 Import ListNotations.
@@ -272,5 +276,100 @@ Definition spec_create_energy (id : Z) (eru : energy_rate_unit) (du : dist_unit)
         end
     | _, _ => "FAIL not-finite"
     end.
+
+(* ------------------------------------------------------------------ A lines (stream `approx`)
+   DESIGN.md 1.2: bit-exactness is the primary correspondence criterion; a case whose bits differ is
+   re-judged here against the EXACT value of the model ([QN] on the exact rational value of the inputs):
+   the implementation's result must be within 1e-9 relative (+ 2^-1000 absolute, for the subnormal range) of it
+   (six orders of magnitude below the 0.1 % the property grants), with the same outcome class (Ok / Err class / energy unit).  Where no exact value
+   exists (infinite or NaN input or result) only bit-equality with the binary64 model counts; inputs next to the
+   subnormal range or to overflow are judged by outcome class only (see [extreme]). *)
+Local Open Scope Q_scope.
+Definition band : Q := 1 # 1000000000.
+(* absolute floor for results in the subnormal range, where binary64 rounding is absolute (2^-1074), not relative:
+   2^-1000, i.e. about 1e-301 -- far below any magnitude a unit conversion is applied to *)
+Definition band_floor : Q := 1 # (2 ^ 1000).
+(* an input within a factor 2^64 of the subnormal range or of overflow: intermediates of a re-ordered but
+   equivalent computation may be subnormal (absolute rounding) or overflow there, so in the FALLBACK (never in
+   the bit-exact comparison) such an element is judged by its outcome class only *)
+Definition extreme (f : float) : bool :=
+  match Prim2SF f with
+  | S754_finite _ _ e => (e + 52 <? -960)%Z || (960 <? e + 52)%Z
+  | _ => false
+  end.
+(* element verdicts: 0 = same bits or inside the band, 1 = extreme input, outcome class agrees, 2 = outside *)
+Definition close_float (loose : bool) (exact : option Q) (model impl : float) : Z :=
+  if String.eqb (show_float model) (show_float impl) then 0%Z
+  else if loose then 1%Z
+  else match exact, Q_of_float impl with
+       | Some q, Some qi => if Qle_bool (Qabs (qi - q)) (band * Qabs q + band_floor) then 0%Z else 2%Z
+       | _, _ => 2%Z
+       end.
+Definition close_res (loose : bool) (exact : option (res Q)) (model impl : res float) : Z :=
+  match model, impl with
+  | Ok a, Ok b => close_float loose (match exact with Some (Ok q) => Some q | _ => None end) a b
+  | Err c1, Err c2 => if String.eqb c1 c2 then 0%Z else 2%Z
+  | _, _ => 2%Z
+  end.
+Local Open Scope string_scope.
+Fixpoint indices_of (v : Z) (i : Z) (l : list Z) : list Z :=
+  match l with
+  | [] => []
+  | b :: r => (if Z.eqb b v then [i] else []) ++ indices_of v (i + 1)%Z r
+  end.
+Definition approx_verdict (n m : nat) (l : list Z) : string :=
+  if negb (Nat.eqb n m) then "FAIL length"
+  else match indices_of 2 0 l, indices_of 1 0 l with
+       | [], [] => "ok"
+       | [], loose => "ok extreme-inputs-judged-by-outcome-class-only=" ++ show_nat (List.length loose)
+       | bad, _ => "FAIL outside-1e-9-band-at " ++ show_list show_Z bad
+       end.
+
+Definition approx_conv (id : Z) (cf : float -> float) (cq : Q -> Q) (xs ys : list float) : string :=
+  line "A" id (approx_verdict (List.length xs) (List.length ys)
+    (map (fun xy => close_float (extreme (fst xy)) (option_map cq (Q_of_float (fst xy))) (cf (fst xy)) (snd xy)) (combine xs ys))).
+Definition approx_dist (id : Z) (u v : dist_unit) (xs ys : list float) : string :=
+  approx_conv id (convert_distance FN u v) (convert_distance QN u v) xs ys.
+Definition approx_time (id : Z) (u v : time_unit) (xs ys : list float) : string :=
+  approx_conv id (convert_time FN u v) (convert_time QN u v) xs ys.
+Definition approx_speed (id : Z) (u v : speed_unit) (xs ys : list float) : string :=
+  approx_conv id (convert_speed FN u v) (convert_speed QN u v) xs ys.
+Definition approx_energy (id : Z) (u v : energy_unit) (xs ys : list float) : string :=
+  approx_conv id (convert_energy FN u v) (convert_energy QN u v) xs ys.
+Definition approx_grade (id : Z) (u v : grade_unit) (xs ys : list float) : string :=
+  approx_conv id (convert_grade FN u v) (convert_grade QN u v) xs ys.
+Definition approx_weight (id : Z) (u v : weight_unit) (xs ys : list float) : string :=
+  approx_conv id (convert_weight FN u v) (convert_weight QN u v) xs ys.
+
+Definition exact2 {A} (f : Q -> Q -> A) (a b : float) : option A :=
+  match Q_of_float a, Q_of_float b with Some qa, Some qb => Some (f qa qb) | _, _ => None end.
+Definition approx_create_time (id : Z) (su : speed_unit) (du : dist_unit) (tu : time_unit)
+                              (sds : list (float * float)) (rs : list (res float)) : string :=
+  line "A" id (approx_verdict (List.length sds) (List.length rs)
+    (map (fun c => let '(s, d, r) := c in
+                   close_res (extreme s || extreme d) (exact2 (fun qs qd => create_time QN qs su qd du tu) s d)
+                             (create_time FN s su d du tu) r)
+         (combine sds rs))).
+Definition approx_create_speed (id : Z) (tu : time_unit) (du : dist_unit) (su : speed_unit)
+                               (tds : list (float * float)) (rs : list (res float)) : string :=
+  line "A" id (approx_verdict (List.length tds) (List.length rs)
+    (map (fun c => let '(t, d, r) := c in
+                   close_res (extreme t || extreme d) (exact2 (fun qt qd => create_speed QN qt tu qd du su) t d)
+                             (create_speed FN t tu d du su) r)
+         (combine tds rs))).
+Definition approx_create_energy (id : Z) (eru : energy_rate_unit) (du : dist_unit)
+                                (rds : list (float * float)) (rs : list (res (float * energy_unit))) : string :=
+  line "A" id (approx_verdict (List.length rds) (List.length rs)
+    (map (fun c => let '(r, d, o) := c in
+                   match create_energy FN r eru d du, o with
+                   | Ok (a, ua), Ok (b, ub) =>
+                       if energy_eqb ua ub
+                       then close_float (extreme r || extreme d)
+                                        (match exact2 (fun qr qd => create_energy QN qr eru qd du) r d with
+                                         | Some (Ok (q, _)) => Some q | _ => None end) a b
+                       else 2%Z
+                   | _, _ => 2%Z
+                   end)
+         (combine rds rs))).
 
 End UnitsRun.
